@@ -149,6 +149,34 @@ fn biguint_zero_bits() {
     }
 }
 
+/// Comparison of operand types the in-circuit side does not support: both sides must reject.
+fn equality_types() {
+    use midnight_proofs::{circuit::Value, dev::cost_model::dummy_synthesize_run};
+    use midnight_zk_stdlib::MidnightCircuit;
+    for (op, outs) in [(Operation::IsEqual, 1usize), (Operation::AssertEqual, 0), (Operation::AssertNotEqual, 0)] {
+        for (a, b) in [("JubjubScalar:01", "JubjubScalar:01"), ("JubjubScalar:01", "JubjubScalar:02"), ("Native:01", "BigUint:01"), ("1", "Native:01")] {
+            let instr = Instruction { operation: op, inputs: vec![a.into(), b.into()], outputs: names("z", outs) };
+            let Ok(r) = ZkirRelation::from_instructions(std::slice::from_ref(&instr)) else { continue };
+            let rr = r.clone();
+            let off = panic::catch_unwind(panic::AssertUnwindSafe(move || {
+                let mut p = std::collections::HashMap::new();
+                p.clear();
+                rr.public_inputs(p).is_ok()
+            }));
+            let rr = r.clone();
+            let inc = panic::catch_unwind(panic::AssertUnwindSafe(move || {
+                let circuit = MidnightCircuit::new(&rr, Value::unknown(), Value::unknown(), Some(10));
+                dummy_synthesize_run(&circuit).is_ok()
+            }));
+            // AssertEqual(a != b) / AssertNotEqual(a == b) legitimately fail off-circuit on the VALUES: only type-level
+            // disagreement counts, i.e. off-circuit Ok while in-circuit Err
+            if let (Ok(true), Ok(false)) = (off, inc) {
+                report("equality_types", format!("{:?} of the constants {a} and {b}", op), "off-circuit evaluation: Ok; in-circuit synthesis: Err", "the same verdict on both sides");
+            }
+        }
+    }
+}
+
 /// IntoBytes(n): n is a parameter of the (untrusted) program.
 fn into_bytes_lengths() {
     use Operation::*;
@@ -244,6 +272,7 @@ fn main() {
             mod_exp_zero();
             jubjub_constant();
             biguint_zero_bits();
+            equality_types();
             param_edges();
         }
         _ => {
